@@ -8,6 +8,7 @@ Oracle: every task's result equals its solo result; no residue after join; LRU s
 """
 import copy
 import os
+import sys
 
 from hypothesis import strategies as st
 
@@ -32,7 +33,7 @@ ASSUMPTIONS = [
     "watchdog aborts (a task blocked on a real lock held by a parked thread) are inconclusive, never violations",
     "context_behavior and template_cache_size are process-wide settings, fixed per case",
 ]
-BOUNDS = {"quick": {"hyp": 480, "single_pairs": 17, "double_pairs": 5}, "thorough": {"hyp": 40000, "single_pairs": 29, "double_pairs": 5}}
+BOUNDS = {"quick": {"hyp": 480, "single_pairs": 18, "double_pairs": 5}, "thorough": {"hyp": 40000, "single_pairs": 30, "double_pairs": 5}}
 CFG = {"provide": True, "inject": True, "errors": False, "isfilled": False, "max_nodes": 3, "max_comps": 2, "max_depth": 2, "provide_weight": 3, "inject_pct": 70, "ticks": True, "hooks": False, "elems": True, "idecho": True}
 
 CFG_ASSETS = {"assets": True, "errors": False, "isfilled": False, "max_nodes": 3, "max_comps": 3, "max_depth": 2, "elems": True}
@@ -205,6 +206,13 @@ def build_tasks(case):
                         return {"v": v}
 
                 FC.__module__ = "vfgen.shared"
+                if "vfgen.shared" not in sys.modules:
+                    # the media resolution looks the class's module up; a file-less module means "paths relative to COMPONENTS.dirs"
+                    import types as _types
+
+                    _m = _types.ModuleType("vfgen.shared")
+                    _m.__file__ = None
+                    sys.modules["vfgen.shared"] = _m
                 registry.register(name, FC)
                 cls = FC
 
@@ -554,6 +562,8 @@ FIXED_PAIRS = [
     {"tasks": [{"t": "sharedtpl", "x": "A"}, {"t": "sharedtpl", "x": "B"}], "mode": "isolated", "cache_size": 2, "yield": "all", "yield_files": ["component.py"]},
     # the library's OWN id generator (normally replaced by a counter): a pre-emption before every executed line of it
     {"tasks": [{"t": "render", "program": _ELEM}, {"t": "render", "program": _ELEM}], "mode": "django", "cache_size": 2, "realids": True, "yield": "all", "yield_files": ["util/nanoid.py"]},
+    # first use of ONE file-based class (template_file / js_file / css_file) by both threads, every line of the media resolution
+    {"tasks": [{"t": "filecomp", "how": 0}, {"t": "filecomp", "how": 1}], "mode": "django", "cache_size": 2, "yield": "all", "yield_files": ["component_media.py"]},
     {"tasks": [{"t": "render", "program": _ELEM}, {"t": "render", "program": _ELEM}], "mode": "django", "cache_size": 2},
     {"tasks": [{"t": "render", "program": _ELEM}, {"t": "fail", "program": _ELEM, "at": 3}], "mode": "isolated", "cache_size": 2},
     {"tasks": [{"t": "compile", "srcs": [0, 0, 0, 0]}, {"t": "compile", "srcs": [1, 2, 1, 3]}], "mode": "django", "cache_size": 1},
@@ -578,7 +588,7 @@ FIXED_PAIRS = [
 ]
 
 
-LONGEST_ALL_PAIR = 5  # index in FIXED_PAIRS of the dynexpr pair
+QUICK_STRIDES = {5: 3}  # index in FIXED_PAIRS -> stride of the every-line enumeration in the quick tier (dynexpr, file-based class)
 
 
 def plan(tier, seed, scale=1.0):
@@ -589,7 +599,7 @@ def plan(tier, seed, scale=1.0):
         parts = 16 if FIXED_PAIRS[pi].get("yield") == "all" else 4
         # quick tier: the longest every-line pair (nested-template arguments, ~8000 points) takes every third point, the
         # residue class chosen by the seed; the thorough tier takes them all
-        stride = 3 if (tier == "quick" and pi == LONGEST_ALL_PAIR) else 1
+        stride = QUICK_STRIDES.get(pi, 1) if tier == "quick" else 1
         for part in range(parts):
             specs.append({"kind": "single", "pair": pi, "part": part, "parts": parts, "stride": stride, "offset": seed % stride})
     for pi in range(b.get("double_pairs", 2)):
